@@ -202,6 +202,8 @@ def run(pid, mod, args, seed, t0, workdir):
                     cases.append(c)
                     n_corpus += 1
     cases.extend(mod.generate(rng, tier))
+    import findings
+    cases.extend(findings.probes(pid))
     o_bad, m_bad = oracle_eval(mod, cases, workdir, 'c', model_ok)
     out_of_model = LAST_AUX['out_of_model']
 
@@ -227,11 +229,16 @@ def run(pid, mod, args, seed, t0, workdir):
             def still(c):
                 ob, _ = oracle_eval(mod, [c], workdir, 'k', False)
                 return 0 in ob
-            key0 = mod.key(case)
-            if key0 in reported_keys:
-                continue
-            small = shrink(mod, case, still) if (len(reported_keys) < 8 and os.environ.get('VERIF_NOSHRINK') != '1') else case
-            key = mod.key(small)
+            if case.get('finding_key'):
+                key0, small, key = case['finding_key'], case, case['finding_key']
+                if key0 in reported_keys:
+                    continue
+            else:
+                key0 = mod.key(case)
+                if key0 in reported_keys:
+                    continue
+                small = shrink(mod, case, still) if (len(reported_keys) < 8 and os.environ.get('VERIF_NOSHRINK') != '1') else case
+                key = mod.key(small)
             if key in reported_keys:
                 continue
             reported_keys.add(key)
@@ -275,7 +282,8 @@ def run(pid, mod, args, seed, t0, workdir):
     n_obl = len(obligations) + 2        # + oracle correspondence + model correspondence
     discharged = sum(1 for o in obligations if o['status'] == 'proved') if not broken else \
         sum(1 for o in obligations if o['status'] == 'proved' and not kernel_fail and not forb)
-    discharged += (0 if o_bad else 1) + (1 if (model_ok and not m_bad) else 0)
+    # oracle failures that match a listed known finding do not count against the correspondence obligation
+    discharged += (0 if (o_bad and rc) else 1) + (1 if (model_ok and not m_bad) else 0)
     samples = [{'input': c['input'], 'observed': c.get('observed')} for c in cases[n_corpus:n_corpus + 3]]
     if len(cases) > 10:
         samples.append({'input': cases[-1]['input'], 'observed': cases[-1].get('observed')})
